@@ -39,8 +39,8 @@ var (
 //
 //	reduce or do not call GetRules if possible
 func GetRules() []Rule {
-	rules := make([]*Rule, 0, len(ruleMap))
 	ruleMapMux.RLock()
+	rules := make([]*Rule, 0, len(ruleMap))
 	for _, rs := range ruleMap {
 		rules = append(rules, rs...)
 	}
